@@ -292,12 +292,16 @@ class SMUserList(UserList, ABC):
 
         if isinstance(i, slice):
             # let the underlying Python list do the slice arithmetic
-            data = self.data[i]
-            if len(data) == 0:
-                return self.__class__.Empty()
-            return self.__class__(data)
+            return self._wrap(self.data[i])
         else:
-            return self.__class__(self.data[i])
+            return self._wrap([self.data[i]])
+
+    def _wrap(self, data):
+        # new instance of the same class holding values taken from an instance,
+        # they were validated when they went in and are not checked again
+        new = self.__class__.Empty()
+        new.data = data
+        return new
         
     def __setitem__(self, i, value):
         """
@@ -322,6 +326,10 @@ class SMUserList(UserList, ABC):
         """
         if not type(self) == type(value):
             raise ValueError("can't insert different type of object")
+        if isinstance(i, slice):
+            # as for a Python list, the values of the right-hand side replace the slice
+            self.data[i] = value.data
+            return
         if len(value) != 1:
             raise ValueError("can't insert a multivalued element - must have len() == 1")
         self.data[i] = value.A
@@ -477,7 +485,7 @@ class SMUserList(UserList, ABC):
 
         where ``X`` is any of the SMTB classes.
         """
-        return self.__class__(super().pop(i))
+        return self._wrap([super().pop(i)])
 
     def binop(self, right, op, op2=None, list1=True):
         """
